@@ -43,59 +43,78 @@ def replay_sharded(ctx, cmd, beh_path, name, nshards=None):
     return [r[0] for r in res], [r[1] for r in res]
 
 
-def validate_traces(ctx, trace_files, canary=True, tag="traces"):
-    """concatenate traces, plant canaries, run LifecycleTrace; returns (all ids, accepted ids, canary ids)"""
-    allp = os.path.join(ctx.work, "traces_%s.ndjson" % tag)
+def validate_traces(ctx, trace_files, canary=True, tag="traces", chunk=50000):
+    """validate recorded traces with LifecycleTrace.tla (chunks of `chunk` traces, two TLC runs at a time); canaries
+    (corrupted copies of accepted-looking traces) go into the first chunk and must be rejected.
+    returns (all ids, accepted ids, list of TLC results)"""
     ids, canaries = [], []
     first_exact = None      # any generated-program trace with a long enough last request
     first_miss = None       # ... whose last request went recv hash miss fetch (no pass path: the store is determined)
-    with open(allp, "w") as out:
-        for tf in trace_files:
-            with open(tf) as f:
-                for line in f:
-                    line = line.strip()
-                    if not line:
-                        continue
-                    tr = json.loads(line)
-                    if not tr.get("reqs"):
-                        continue
-                    ids.append(tr["id"])
-                    out.write(json.dumps(tr) + "\n")
-                    last = tr["reqs"][-1]
-                    if last.get("exact") and len(last["flows"]) >= 4 and last["outcome"] == "ok":
-                        if first_exact is None:
-                            first_exact = tr
-                        if first_miss is None and last["restarts"] == 0 and "miss" in last["flows"] and "fetch" in last["flows"] \
-                                and "pass" not in last["flows"] and last.get("knowAfter"):
-                            first_miss = tr
-        if canary:
-            if first_exact is None:
-                raise MachineryFault("no trace to derive canaries from")
-            # canary 1: two flow entries swapped; canary 2: restart count off by one; canary 3: stored-after flag flipped
-            c1 = json.loads(json.dumps(first_exact)); c1["id"] = "canary-flow"
-            fl = c1["reqs"][-1]["flows"]; fl[-2], fl[-1] = fl[-1], fl[-2]
-            c2 = json.loads(json.dumps(first_exact)); c2["id"] = "canary-restarts"; c2["reqs"][-1]["restarts"] += 1
-            cs = [c1, c2]
-            if first_miss is not None:
-                c3 = json.loads(json.dumps(first_miss)); c3["id"] = "canary-stored"
-                c3["reqs"][-1]["storedAfter"] = not c3["reqs"][-1]["storedAfter"]
-                cs.append(c3)
-            for c in cs:
-                out.write(json.dumps(c) + "\n")
-                canaries.append(c["id"])
-    res = ctx.tlc("LifecycleTrace", extra_files=[allp], defines={"TraceFile": '"%s"' % os.path.basename(allp)},
-                  timeout=1800, tag="trace-validation:" + tag)
-    if res.violated:
-        # an invariant of the specification failed on a recorded execution: find which trace
-        pass
+    chunks, cur, out = [], 0, None
+
+    def new_chunk():
+        nonlocal out, cur
+        if out:
+            out.close()
+        pth = os.path.join(ctx.work, "traces_%s_%d.ndjson" % (tag, len(chunks)))
+        chunks.append(pth)
+        out = open(pth, "w")
+        cur = 0
+    new_chunk()
+    for tf in trace_files:
+        with open(tf) as f:
+            for line in f:
+                line = line.strip()
+                if not line:
+                    continue
+                tr = json.loads(line)
+                if not tr.get("reqs"):
+                    continue
+                if cur >= chunk:
+                    new_chunk()
+                ids.append(tr["id"])
+                out.write(json.dumps(tr) + "\n")
+                cur += 1
+                last = tr["reqs"][-1]
+                if last.get("exact") and len(last["flows"]) >= 4 and last["outcome"] == "ok":
+                    if first_exact is None:
+                        first_exact = tr
+                    if first_miss is None and last["restarts"] == 0 and "miss" in last["flows"] and "fetch" in last["flows"] \
+                            and "pass" not in last["flows"] and last.get("knowAfter"):
+                        first_miss = tr
+    if canary:
+        if first_exact is None:
+            raise MachineryFault("no trace to derive canaries from")
+        # canary 1: two flow entries swapped; canary 2: restart count off by one; canary 3: stored-after flag flipped
+        c1 = json.loads(json.dumps(first_exact)); c1["id"] = "canary-flow"
+        fl = c1["reqs"][-1]["flows"]; fl[-2], fl[-1] = fl[-1], fl[-2]
+        c2 = json.loads(json.dumps(first_exact)); c2["id"] = "canary-restarts"; c2["reqs"][-1]["restarts"] += 1
+        cs = [c1, c2]
+        if first_miss is not None:
+            c3 = json.loads(json.dumps(first_miss)); c3["id"] = "canary-stored"
+            c3["reqs"][-1]["storedAfter"] = not c3["reqs"][-1]["storedAfter"]
+            cs.append(c3)
+        for c in cs:
+            out.write(json.dumps(c) + "\n")
+            canaries.append(c["id"])
+    out.close()
+    from concurrent.futures import ThreadPoolExecutor
+    par = 2 if len(chunks) > 1 else 1
+
+    def run_chunk(pth):
+        return ctx.tlc("LifecycleTrace", extra_files=[pth], defines={"TraceFile": '"%s"' % os.path.basename(pth)},
+                       timeout=2400, workers=max(2, ctx.workers // par), tag="trace-validation:" + os.path.basename(pth))
+    with ThreadPoolExecutor(max_workers=par) as ex:
+        results = list(ex.map(run_chunk, chunks))
     accepted = set()
-    with open(res.beh_path) as f:
-        for line in f:
-            accepted.add(json.loads(line)["accept"])
+    for res in results:
+        with open(res.beh_path) as f:
+            for line in f:
+                accepted.add(json.loads(line)["accept"])
     for c in canaries:
         if c in accepted:
             ctx.defer_fault("canary trace %s was accepted by LifecycleTrace (validator is vacuous)" % c)
-    return ids, accepted, res
+    return ids, accepted, results
 
 
 def h1_traces(ctx):
@@ -202,5 +221,6 @@ def run(ctx):
             if tr["id"] not in accepted:
                 r["mismatch"] = [{"obs": "trace-rejected", "source": "repo-test"}]
             ctx.add_result(r)
-    if tres.violated:
-        raise MachineryFault("LifecycleTrace invariant %s failed on a recorded execution; inspect %s" % (tres.violated, tres.out_path))
+    for t in tres:
+        if t.violated:
+            raise MachineryFault("LifecycleTrace invariant %s failed on a recorded execution; inspect %s" % (t.violated, t.out_path))
